@@ -1124,12 +1124,12 @@ def run(ctx):
     for i in range(0, len(ss), per):
         specs.append({"role": "sv", "shapes": ss[i:i + per], "base": i})
     core.run_shards(ctx, "harness.c04", "shard_shapes", specs)
-    n_adv, ev_adv = (48, 250) if q else (1600, 400)
+    n_adv, ev_adv = (48, 250) if q else (1000, 400)
     per = max(1, n_adv // 16)
     core.run_shards(ctx, "harness.c04", "shard_adv",
                     [(lo, min(lo + per, n_adv), ev_adv) for lo in range(0, n_adv, per)])
     # (3) lockstep, IOCB layer
-    n_io, ev_io = (96, 100) if q else (4000, 160)
+    n_io, ev_io = (96, 100) if q else (2400, 160)
     per = max(1, n_io // 16)
     core.run_shards(ctx, "harness.c04", "shard_io",
                     [(lo, min(lo + per, n_io), ev_io) for lo in range(0, n_io, per)])
